@@ -221,6 +221,11 @@ def evaluate(pool, lane, job, use_ref_for_session=False, nclosure=2):
                 lay, _ = upstream_layout(job, cid, k)
                 findings.append({'class': 'mutates-argument', 'cid': cid, 'k': k, 'op': f['op'], 'args': f['mutated'], 'layout': lay,
                                  'message': '%s changed its argument(s) %s in place' % (f['op'], f['mutated'])})
+            for c2, nm, pk, pop in f.get('mutated_other') or []:
+                findings.append({'class': 'mutates-other', 'cid': cid, 'k': k, 'op': f['op'], 'layout': [], 'args': [nm],
+                                 'message': '%s (step %d of %s) changed a value it was not given to modify: %s of client %s, produced by step %d (%s) -- '
+                                            'that value shares memory with an argument without a documented view contract, or the call wrote through it'
+                                            % (f['op'], k, cid, nm, c2, pk, pop)})
             if f.get('alias'):
                 findings.append({'class': 'alias', 'cid': cid, 'k': k, 'op': f['op'], 'args': f['alias'],
                                  'message': '%s returned an array sharing memory with argument(s) %s' % (f['op'], f['alias'])})
